@@ -56,8 +56,30 @@ def assign_keys(obls):
         ob.key = base if n == 0 else "%s#%d" % (base, n)
 
 
+def _stage(p, obs, mk):
+    """run one solver stage over the still-open obligations; returns those still open"""
+    if not obs:
+        return []
+    res = list(p.map(worker.run, [mk(ob) for ob in obs], chunksize=1))
+    open_ = []
+    for ob, (st, t, why) in zip(obs, res):
+        ob.time += t
+        if st == "unsat":
+            ob.status = "proved"
+            ob.backend = ob._stage
+        elif st == "sat" and ob._full:
+            ob.status = "refuted"
+            ob.backend = ob._stage
+        else:
+            ob.detail = str(why)
+            ob.status = "unknown" if st in ("unknown", "sat") else "error"
+            open_.append(ob)
+    return open_
+
+
 def discharge(obls, timeout_ms=20000, seed=0, retries=((60000, 1),), use_cvc5=True, hints=None, learn=False):
-    """obls: list of Obl with .bg set.  Sets .status in proved / refuted / unknown / error."""
+    """obls: list of Obl with .bg set.  Sets .status in proved / refuted / unknown / error.
+    Portfolio per obligation: [hinted subset, full] x [E-matching only, z3 default]; then other seeds; then cvc5."""
     if os.environ.get("PYVC_NORETRY"):
         retries, use_cvc5 = (), False
     p = pool()
@@ -67,53 +89,37 @@ def discharge(obls, timeout_ms=20000, seed=0, retries=((60000, 1),), use_cvc5=Tr
     for ob in obls:
         ob.smt = to_smt(ob, ob.bg)
         ob.nhyp = len(ob.bg) + len(ob.hyps)
-    # 1. hinted attempt
-    hinted = [ob for ob in obls if ob.key in hints and ob.kind != "canary"]
+    canaries = [ob for ob in obls if ob.kind == "canary"]
+    real = [ob for ob in obls if ob.kind != "canary"]
+    for ob in canaries:
+        ob._stage, ob._full = "z3", True
+    _stage(p, canaries, lambda ob: (ob.smt, 1500, seed, "z3", None, "ematch"))
+    hinted = [ob for ob in real if ob.key in hints]
     for ob in hinted:
         hs = set(hints[ob.key])
         ob.hashes = [hyp_hash(h) for h in list(ob.bg) + list(ob.hyps)]
         ob.subset = [i for i, x in enumerate(ob.hashes) if x in hs]
-    res = list(p.map(worker.run, [(ob.smt, 8000, seed, "hint", ob.subset) for ob in hinted], chunksize=1))
-    done = set()
-    for ob, (st, t, why) in zip(hinted, res):
-        ob.time += t
-        if st == "unsat":
-            ob.status, ob.backend = "proved", "z3(core-hint)"
-            done.add(id(ob))
-    # 2. full query
-    todo = [ob for ob in obls if id(ob) not in done]
-    res = list(p.map(worker.run, [(ob.smt, 1500 if ob.kind == "canary" else timeout_ms, seed, "z3") for ob in todo], chunksize=1))
-    pending = []
-    for ob, (st, t, why) in zip(todo, res):
-        ob.time += t
-        ob.backend = "z3"
-        ob.detail = why
-        ob.status = {"unsat": "proved", "sat": "refuted"}.get(st, "unknown" if st == "unknown" else "error")
-        if ob.status in ("unknown", "error") and ob.kind != "canary":
-            pending.append(ob)
+        ob._stage, ob._full = "z3(core-hint,ematch)", False
+    left = _stage(p, hinted, lambda ob: (ob.smt, 4000, seed, "hint", ob.subset, "ematch"))
+    for ob in left:
+        ob._stage = "z3(core-hint)"
+    left = _stage(p, left, lambda ob: (ob.smt, 8000, seed, "hint", ob.subset, "auto"))
+    hset = set(id(ob) for ob in hinted)
+    todo = [ob for ob in real if id(ob) not in hset] + left
+    for ob in todo:
+        ob._stage, ob._full = "z3(ematch)", True
+    todo = _stage(p, todo, lambda ob: (ob.smt, min(timeout_ms, 10000), seed, "z3", None, "ematch"))
+    for ob in todo:
+        ob._stage = "z3"
+    todo = _stage(p, todo, lambda ob: (ob.smt, timeout_ms, seed, "z3", None, "auto"))
     for (tmo, sd) in retries:
-        if not pending:
-            break
-        res = list(p.map(worker.run, [(ob.smt, tmo, seed + sd, "z3") for ob in pending], chunksize=1))
-        nxt = []
-        for ob, (st, t, why) in zip(pending, res):
-            ob.time += t
-            if st == "unsat":
-                ob.status, ob.backend = "proved", "z3(seed+%d)" % sd
-            elif st == "sat":
-                ob.status = "refuted"
-            else:
-                ob.detail = why
-                nxt.append(ob)
-        pending = nxt
-    if pending and use_cvc5:
-        res = list(p.map(worker.run, [(ob.smt, 30000, 0, "cvc5") for ob in pending], chunksize=1))
-        for ob, (st, t, why) in zip(pending, res):
-            ob.time += t
-            if st == "unsat":
-                ob.status, ob.backend = "proved", "cvc5"
-            elif st == "sat":
-                ob.status, ob.backend = "refuted", "cvc5"
+        for ob in todo:
+            ob._stage = "z3(seed+%d)" % sd
+        todo = _stage(p, todo, lambda ob: (ob.smt, tmo, seed + sd, "z3", None, "auto"))
+    if todo and use_cvc5:
+        for ob in todo:
+            ob._stage = "cvc5"
+        todo = _stage(p, todo, lambda ob: (ob.smt, 30000, 0, "cvc5"))
     if learn:
         learn_hints(obls, hints, seed)
     return time.time() - t0
@@ -121,8 +127,8 @@ def discharge(obls, timeout_ms=20000, seed=0, retries=((60000, 1),), use_cvc5=Tr
 
 def learn_hints(obls, hints, seed=0):
     p = pool()
-    cand = [ob for ob in obls if ob.status == "proved" and ob.kind != "canary" and ob.backend != "z3(core-hint)"]
-    res = list(p.map(worker.run, [(ob.smt, 60000, seed, "core") for ob in cand], chunksize=1))
+    cand = [ob for ob in obls if ob.status == "proved" and ob.kind != "canary" and "core-hint" not in ob.backend and ob.time > 1.0]
+    res = list(p.map(worker.run, [(ob.smt, int(min(60000, max(10000, 3000 * ob.time))), seed, "core") for ob in cand], chunksize=1))
     for ob, (st, t, core) in zip(cand, res):
         if st == "unsat":
             H = list(ob.bg) + list(ob.hyps)
